@@ -105,6 +105,17 @@ class recording(object):
         self.events = list(EVENTS) + [("canary", f) for f in builtins.__dict__.get("_mc_canary_flags", [])]
 
 
+def escaped(text):
+    """The same JSON text with the marker key spelled through an escape sequence (an equal string for every JSON parser)."""
+    return text.replace('"__jsonclass__"', '"__json\\u0063lass__"')
+
+
+def nest(x, depth, dicts=False):
+    for i in range(depth):
+        x = {"k": x} if (dicts or i % 2) else [x]
+    return x
+
+
 CFG_ON = Config(use_jsonclass=True)
 CFG_OFF = Config(use_jsonclass=False)
 
@@ -148,6 +159,12 @@ def name_cases(tier):
                 if side == "server" and tier == "quick" and len(n) == 3 and n[0] in VALID_CHARS and n[1] in VALID_CHARS and valid_name(n):
                     continue
                 yield (n, args, side)
+            if len(n) != 3 or not valid_name(n):
+                # the descriptor 40 levels deep, and the marker key spelled with an escape sequence
+                yield (n, args, "jsonclass.load/deep")
+                yield (n, args, "jsonrpc.loads/escaped")
+                yield (n, args, "server/escaped")
+                yield (n, args, "server/deep")
 
 
 def check_name(case):
@@ -156,6 +173,10 @@ def check_name(case):
     ok_name = valid_name(name)
     out.cls = "%s/%s" % (side, "valid-name" if ok_name else "invalid-name")
     desc = {"__jsonclass__": [name, args]}
+    side, _, variant = side.partition("/")
+    if variant == "deep":
+        desc = nest(desc, 40)
+    esc = escaped if variant == "escaped" else (lambda t: t)
     if not ok_name:
         # non-initial state: the same translator has just resolved the name that remains when the invalid characters are dropped
         cleaned = "".join(c for c in name if c in VALID_CHARS)
@@ -174,7 +195,7 @@ def check_name(case):
             except Exception as ex:
                 res = type(ex).__name__
     elif side == "jsonrpc.loads":
-        text = json.dumps({"jsonrpc": "2.0", "id": 1, "result": [desc]})
+        text = esc(json.dumps({"jsonrpc": "2.0", "id": 1, "result": [desc]}))
         with recording() as rec:
             try:
                 J.loads(text, CFG_ON)
@@ -185,7 +206,7 @@ def check_name(case):
                 res = type(ex).__name__
     else:
         w = _world(True)
-        body = json.dumps({"jsonrpc": "2.0", "id": 1, "method": "f", "params": [desc]})
+        body = esc(json.dumps({"jsonrpc": "2.0", "id": 1, "method": "f", "params": [desc]}))
         with recording() as rec:
             try:
                 reply = w.run(body)
@@ -211,6 +232,48 @@ def check_name(case):
             elif res != "TranslationError":
                 out.bad("C08/%s/invalid-class-name-raises-%s-instead-of-TranslationError" % (side, res), "class name %r raised %s" % (name, res))
     return out
+
+
+def codepoint_cases(tier):
+    """Every Unicode code point (quick: the whole BMP and every 16th astral one) placed inside an otherwise valid, importable class name."""
+    block = 256
+    for start in range(0, 0x110000, block):
+        if tier == "quick" and start >= 0x10000 and (start // block) % 16:
+            continue
+        yield (start, block)
+
+
+def check_codepoints(case):
+    start, n = case
+    out = Out(cls="codepoints")
+    for cp in range(start, start + n):
+        c = chr(cp)
+        if c in VALID_CHARS:
+            continue
+        for name in ("mc_canary.B" + c + "oom", c + "mc_canary.Boom"):
+            with recording() as rec:
+                try:
+                    jsonclass.load({"__jsonclass__": [name, []]})
+                    res = "ret"
+                except jsonclass.TranslationError:
+                    res = "TranslationError"
+                except Exception as ex:
+                    res = type(ex).__name__
+            if rec.events:
+                out.bad("C08/jsonclass.load/import-or-construction-before-name-validation", "class name %r (U+%04X): events %r" % (name, cp, rec.events))
+            if res == "ret":
+                out.bad("C08/jsonclass.load/invalid-class-name-accepted", "class name %r (U+%04X) was accepted" % (name, cp))
+            elif res != "TranslationError":
+                out.bad("C08/jsonclass.load/invalid-class-name-raises-%s-instead-of-TranslationError" % res, "class name %r (U+%04X) raised %s" % (name, cp, res))
+    return out
+
+
+def leg_codepoints(part, tier, shard, nshards):
+    try:
+        jsonclass.load({"__jsonclass__": ["x y", []]})
+    except Exception:
+        pass
+    drive(part, "codepoints", codepoint_cases(tier), shard, nshards, check_codepoints)
 
 
 _WORLDS = {}
@@ -255,13 +318,16 @@ def placements(x):
     yield {"jsonrpc": "2.0", "id": 1, "error": {"code": 5, "message": "m", "data": x}}
     yield [{"jsonrpc": "2.0", "id": 1, "result": x}, {"jsonrpc": "2.0", "id": 2, "result": 0}]
     yield {"id": 1, "result": x, "error": None}
+    yield nest(x, 30)
+    yield nest(x, 61, dicts=True)
+    yield {"jsonrpc": "2.0", "id": 1, "result": nest(x, 26)}
 
 
 def off_cases(tier):
     for si in range(len(SHAPES)):
         n = len(list(placements(0)))
         for pi in range(n):
-            for side in ("loads", "load", "server", "server-batch", "client"):
+            for side in ("loads", "load", "server", "server-batch", "client", "loads/escaped", "server/escaped", "client/escaped"):
                 yield (si, pi, side)
 
 
@@ -269,8 +335,10 @@ def check_off(case):
     si, pi, side = case
     x = {"__jsonclass__": SHAPES[si]}
     struct = list(placements(x))[pi]
-    text = json.dumps(struct)
     out = Out(cls="off/" + side)
+    side, _, variant = side.partition("/")
+    esc = escaped if variant == "escaped" else (lambda t: t)
+    text = esc(json.dumps(struct))
     plain = json.loads(text)
     if side in ("loads", "load"):
         with recording() as rec:
@@ -283,7 +351,7 @@ def check_off(case):
     elif side in ("server", "server-batch"):
         w = _world(False)
         req = {"jsonrpc": "2.0", "method": "echo", "params": [struct], "id": 9}
-        body = json.dumps([req, {"jsonrpc": "2.0", "method": "f", "params": [struct]}] if side == "server-batch" else req)
+        body = esc(json.dumps([req, {"jsonrpc": "2.0", "method": "f", "params": [struct]}] if side == "server-batch" else req))
         with recording() as rec:
             try:
                 reply = w.run(body)
@@ -304,7 +372,7 @@ def check_off(case):
         # client: a response carrying the structure, translation off on the proxy
         from mc.loop import CannedTransport
 
-        t = CannedTransport([json.dumps({"jsonrpc": "2.0", "id": 1, "result": struct})])
+        t = CannedTransport([esc(json.dumps({"jsonrpc": "2.0", "id": 1, "result": struct}))])
         p = jsonrpclib.ServerProxy("http://h/", transport=t, config=CFG_OFF)
         with recording() as rec:
             try:
@@ -330,12 +398,14 @@ REJECT = [s for s in SHAPES if s not in (["mc_canary.Boom", []], ["mc_canary.Boo
 
 def on_cases(tier):
     for si in range(len(REJECT)):
-        for pi in range(8):
-            yield (si, pi)
+        for pi in list(range(8)) + [13, 14, 15]:
+            yield (si, pi, "")
+            yield (si, pi, "escaped")
 
 
 def check_on(case):
-    si, pi = case
+    si, pi, variant = case
+    esc = escaped if variant == "escaped" else (lambda t: t)
     shape = REJECT[si]
     x = {"__jsonclass__": shape}
     struct = list(placements(x))[pi]
@@ -344,7 +414,10 @@ def check_on(case):
     wellformed_desc = isinstance(shape, list) and len(shape) == 2 and isinstance(shape[0], str) and isinstance(shape[1], (list, dict))
     with recording() as rec:
         try:
-            jsonclass.load(json.loads(json.dumps(struct)))
+            if variant == "escaped":
+                J.loads(esc(json.dumps(struct)), CFG_ON)
+            else:
+                jsonclass.load(json.loads(json.dumps(struct)))
             res = "ret"
         except jsonclass.TranslationError:
             res = "TranslationError"
@@ -360,7 +433,7 @@ def check_on(case):
         if bad_events:
             out.bad("C08/on/import-or-construction-before-name-validation", "load(%r): events %r" % (struct, bad_events))
     w = _world(True)
-    body = json.dumps({"jsonrpc": "2.0", "method": "f", "params": [struct], "id": 3})
+    body = esc(json.dumps({"jsonrpc": "2.0", "method": "f", "params": [struct], "id": 3}))
     try:
         reply = w.run(body)
         r = json.loads(reply)
@@ -377,15 +450,17 @@ def leg_on(part, tier, shard, nshards):
     drive(part, "translation-on", on_cases(tier), shard, nshards, check_on)
 
 
-LEGS = {"names": leg_names, "translation-off": leg_off, "translation-on": leg_on}
+LEGS = {"names": leg_names, "translation-off": leg_off, "translation-on": leg_on, "codepoints": leg_codepoints}
 
 META = {
     "technique": "bounded-exhaustive enumeration of class-name strings and descriptor payloads with import/construction detectors "
     "(wrapped __import__ and import_module, audit hook, canary module) and a one-line reference predicate for valid names",
     "rule": "names: every string of length 0-3 over a 16-character alphabet (ASCII letters/digit/underscore/dot, space, punctuation, newline, NUL, "
     "non-ASCII letters and digits, astral) = 4369 names, plus 29 invalid characters inserted at each of the 15 positions of 'mc_canary.Boom', x list/dict "
-    "arguments x {jsonclass.load, jsonrpc.loads, server}; translation-off: 22 descriptor shapes x 13 placements x {loads, load, server, server batch, "
-    "client proxy}; translation-on: 17 rejected shapes x 8 placements; non-trivial = every case (each has a defined expectation)",
+    "arguments x {jsonclass.load, jsonrpc.loads, server, the descriptor nested 40 levels deep, the marker key spelled with a \\u escape}; codepoints: every "
+    "Unicode code point (quick: whole BMP + every 16th astral block) inserted into and prefixed to an importable canary class name; translation-off: 22 "
+    "descriptor shapes x 16 placements (incl. 26/30/61 levels deep) x {loads, load, server, server batch, client proxy, and the escaped key spelling}; "
+    "translation-on: 17 rejected shapes x 11 placements x {plain, escaped key}; non-trivial = every case (each has a defined expectation)",
     "bounds": {"quick": {"name_length": 3}, "thorough": {"name_length": "3 over 16 characters, 4 over 10 characters"}},
     "assumptions": [
         "an import event is attributed to the library when a jsonrpclib frame is on the stack of the importing call",
@@ -398,6 +473,8 @@ def replay(case):
     c = eval(case["case"], {"__builtins__": {}}, {})
     if case["leg"] == "names":
         return check_name(c).viols
+    if case["leg"] == "codepoints":
+        return check_codepoints(c).viols
     if case["leg"] == "translation-off":
         return check_off(c).viols
     return check_on(c).viols
